@@ -1,7 +1,7 @@
-import MiVerif.Props.C13
+import MiVerif.Lemmas.C13Range
 /- C07 helper: the liberal (commit) direction of the range arithmetic of the regenerated mi_segment_commit_mask -/
 namespace C07L
-open Gen C13
+open Gen C13L
 
 theorem down_facts (D : Nat) : D / 65536 * 65536 ≤ D ∧ D < D / 65536 * 65536 + 65536 := by omega
 theorem up_facts (x : Nat) : x ≤ (x + 65535) / 65536 * 65536 := by omega
